@@ -45,8 +45,8 @@ EXPECT = {
 
 def alphabet(tier):
     if tier == "quick":
-        return [("op", "get"), ("op", "set")] + [("advance", d) for d in (1, 149, 151, 1000, 86400, 2592000)] + [("reboot",)]
-    return [("op", o) for o in OPS] + [("advance", d) for d in (1, 100, 149, 150, 151, 1000, 86400, 2592000)] + [("reboot",)]
+        return [("op", "get"), ("op", "set")] + [("advance", d) for d in (1, 151, 86400)] + [("reboot",), ("switch", "configure"), ("switch", "reconfigure")]
+    return [("op", o) for o in OPS] + [("advance", d) for d in (1, 100, 149, 150, 151, 1000, 86400, 2592000)] + [("reboot",), ("switch", "configure"), ("switch", "reconfigure")]
 
 
 def bounds(tier):
@@ -73,10 +73,23 @@ def run_history(level, hist):
     out = []
     outcomes = []
     rebooted = False
+    switched = False
     disc_at = None
     for i, ev in enumerate(hist):
         if ev[0] == "advance":
             CLOCK.advance(ev[1])
+        elif ev[0] == "switch":
+            # the client is temporarily / permanently moved to SNMPv2c and back
+            from puresnmp.credentials import V2C
+
+            v3creds = client.config.credentials
+            if ev[1] == "configure":
+                client.configure(credentials=V2C("public"))
+                client.configure(credentials=v3creds)
+            else:
+                with client.reconfigure(credentials=V2C("public")):
+                    pass
+            switched = True
         elif ev[0] == "reboot":
             ag.reboot()
             rebooted = disc_at is not None
@@ -101,6 +114,7 @@ def run_history(level, hist):
                 out.append({"kind": kind, "detail": {**facts, **detail, "message": str(exc)[:200] if exc else None}, "facts": facts})
 
             first = n0 == 0
+            facts["switched_credential_family_and_back"] = switched
             if first:
                 if not new or not new[0].get("discovery"):
                     bad("first-datagram-is-not-a-discovery-probe")
